@@ -79,6 +79,18 @@ def check_tokenize(names, text, le):
     toks = list(t.tokenize(text))
     enc = [[x.start, x.end, enc_str(x.string), [] if x.value is None else [x.value]] for x in toks]
     err = None
+    # another tokenizer that stores every word of the text is built and used; the first one answers as before
+    other = Trie()
+    for w in dict.fromkeys(text.lower().replace('(', ' ( ').replace(')', ' ) ').split()):
+        other.add(w, 99)
+    other.make_automaton()
+    try:
+        list(other.tokenize(text))
+        again = [[x.start, x.end, enc_str(x.string), [] if x.value is None else [x.value]] for x in t.tokenize(text)]
+        if again != enc:
+            err = 'the tokens differ once another tokenizer over the words of the text was built: %r, before %r' % (again, enc)
+    except Exception as ex:   # noqa
+        err = 'after another tokenizer over the words of the text was built: %s: %s' % (type(ex).__name__, ex)
     prev_end = -1
     covered = [0] * len(text)
     for x in toks:
